@@ -288,6 +288,24 @@ def rule_r5(p, res):
     v = Defs(ue.node).single("edge_pairs")
     r.check(v is not None and norm(v) in ("np.sort(self.edge_indices())", "np.sort(self.edge_indices(), axis=1)"), ue, ue.node,
             "unique edges must be computed on pairs sorted within each row")
+    # the de-duplication compares whole pairs exactly (row-wise unique / a byte view of the row), for every integer dtype of the trilist
+    due = Defs(ue.node)
+    uq = [k for k in calls_in(ue.node) if (dotted(k.func) or "") in ("np.unique", "numpy.unique") and k.args]
+    need(len(uq) == 1, "C17.R5: the np.unique call of unique_edge_indices was not found")
+    arg0 = arg = uq[0].args[0]
+    if isinstance(arg, ast.Name) and due.single(arg.id) is not None:
+        arg = due.single(arg.id)
+    ax = kwarg(uq[0], "axis")
+    if ax is not None and const_value(ax) == 0 and norm(arg0) == "edge_pairs":
+        r.ok({"dedup": "row-wise unique"})
+    elif any(isinstance(x, ast.Call) and isinstance(x.func, ast.Attribute) and x.func.attr == "view" for x in ast.walk(arg)) and "np.void" in norm(arg):
+        r.ok({"dedup": "byte view of each row"})
+    elif isinstance(arg, ast.BinOp) and any(isinstance(x, ast.Subscript) and norm(x.value) == "edge_pairs" for x in ast.walk(arg)):
+        wide = any(isinstance(x, ast.Attribute) and x.attr in ("int64", "uint64") for x in ast.walk(arg))
+        r.check(wide, ue, stmt_of(uq[0].args[0]) if not isinstance(uq[0].args[0], ast.Name) else ue.node, "unique edges are keyed on the arithmetic fold `%s` of the two vertex indices, computed in the trilist's own "
+                "integer dtype: for narrow dtypes (uint16 / int32 meshes) the product wraps around, distinct edges collide and disappear from the unique-edge queries" % norm(arg)[:60])
+    else:
+        raise AnalysisError("C17.R5: de-duplication idiom `%s` of unique_edge_indices not recognised" % norm(arg)[:70])
 
 
 def rule_r6(p, res):
@@ -382,7 +400,39 @@ def rule_r7(p, res):
     r.check(len(st) == 1 and norm(st[0].value) == "np.arange(unique_values.shape[0])", g, g.node, "surviving indices must be renumbered 0..k-1 in order")
 
 
-RULES = [rule_r1, rule_r2, rule_r3, rule_r4, rule_r5, rule_r6, rule_r7]
+# the in-place API of a shape: the only methods that may (re)bind or write the receiver's state
+INPLACE_API = {"__init__", "_from_vector_inplace", "from_vector_inplace", "_transform_inplace", "_transform_self_inplace", "__setstate__"}
+
+
+def rule_r8(p, res):
+    r = res.rule("C17.R8", "mesh queries are stateless: no method outside the in-place API stores anything on the mesh (a cached normal / area would survive transforms, masking and copy())")
+    eff = get_effects(p)
+    n = 0
+    for cn in ("TriMesh", "ColouredTriMesh", "TexturedTriMesh"):
+        c = p.cls(cn)
+        names = set()
+        for b in c.mro:
+            names |= set(getattr(b, "methods", {}))
+        for name in sorted(names):
+            if name in INPLACE_API or name.startswith("_view") or name.startswith("view"):
+                continue
+            f = p.lookup(c, name)
+            if f is None or not f.params:
+                continue
+            n += 1
+            r.instance("%s@%s" % (f.short, cn))
+            es = [e for e in eff.summary(f, c).on(f.params[0])
+                  if not (e.kind == "set:writeable") and not (e.func is not None and e.func.name == "landmarks" and e.func.is_property())]
+            for e in es[:1]:
+                r.violation(f, e.node if e.func is f else f.node, "%s (on %s) stores into the mesh (%s%s): state written by a query is carried along by copy(), transforms and masking and is never "
+                            "invalidated, so later answers describe the mesh as it was" % (f.short, cn, e.kind, (" ." + ".".join(map(str, e.path))) if e.path else ""))
+            if not es:
+                r.ok()
+    if n < 100:
+        raise AnalysisError("C17.R8: only %d mesh methods analysed (floor 100)" % n)
+
+
+RULES = [rule_r1, rule_r2, rule_r3, rule_r4, rule_r5, rule_r6, rule_r7, rule_r8]
 
 WITNESSES = [
     Witness("C17.W1", "menpo/shape/mesh/coloured.py", "ColouredTriMesh.from_mask", "ctm.colours = ctm.colours[isolated_mask, :]", "ctm.colours = ctm.colours[mask, :]",
@@ -407,4 +457,15 @@ WITNESSES = [
     Witness("C17.W12", "menpo/shape/mesh/base.py", "TriMesh.tri_areas", "return np.linalg.norm(np.cross(ij, ik), axis=1) * 0.5",
             "return np.sqrt((ij ** 2).sum(axis=1) * (ik ** 2).sum(axis=1) - (ij * ik).sum(axis=1) ** 2) * 0.5", rule="C17.R6", construct="TriMesh.tri_areas", note="seeded change R2-C17-C"),
     Witness("C17.T1", "menpo/shape/mesh/base.py", "TriMesh.from_mask", "tm.points = tm.points[isolated_mask, :]", "tm.points = tm.points[isolated_mask]", kind="T"),
+]
+
+WITNESSES += [
+    Witness("C17.W13", "menpo/shape/mesh/base.py", "TriMesh.unique_edge_indices",
+            "edge_pair_view = np.ascontiguousarray(edge_pairs).view(np.dtype((np.void, edge_pairs.dtype.itemsize * edge_pairs.shape[1])))\n    unique_edge_index = np.unique(edge_pair_view, return_index=True)[1]",
+            "edge_keys = edge_pairs[:, 0] * self.n_points + edge_pairs[:, 1]\n    unique_edge_index = np.unique(edge_keys, return_index=True)[1]", rule="C17.R5", construct="unique_edge_indices", note="seeded change R3-C17-A"),
+    Witness("C17.T2", "menpo/shape/mesh/base.py", "TriMesh.unique_edge_indices",
+            "edge_pair_view = np.ascontiguousarray(edge_pairs).view(np.dtype((np.void, edge_pairs.dtype.itemsize * edge_pairs.shape[1])))\n    unique_edge_index = np.unique(edge_pair_view, return_index=True)[1]",
+            "unique_edge_index = np.unique(edge_pairs, axis=0, return_index=True)[1]", kind="T"),
+    Witness("C17.W14", "menpo/shape/mesh/base.py", "TriMesh.tri_normals", "return compute_face_normals(self.points, self.trilist)",
+            "if getattr(self, '_tri_normals', None) is None:\n        self._tri_normals = compute_face_normals(self.points, self.trilist)\n    return self._tri_normals", rule="C17.R8", construct="tri_normals", note="seeded change R3-C17-C"),
 ]
